@@ -89,6 +89,15 @@ def c03_sweep(ctx, n):
     return fails, {"c03_cases": done, "c03_per_class": per}
 
 
+def wobble(rng, nps, m):
+    """orientation path of length m whose entries differ from the first by 3e-4 .. 0.3 degrees (any base orientation)"""
+    axis = nps.normal(size=3)
+    axis /= np.linalg.norm(axis)
+    ang = np.deg2rad(10.0 ** nps.uniform(-3.5, -0.5)) * np.arange(m) * rng.choice([-1, 1])
+    base = R.random(rng=nps) if rng.random() < 0.7 else R.identity()
+    return R.from_rotvec(ang[:, None] * axis[None, :]) * base
+
+
 def c04_sweep(ctx, n):
     import magpylib as magpy
 
@@ -98,7 +107,7 @@ def c04_sweep(ctx, n):
         cls = CLASSES[i % len(CLASSES)]
         src = make(cls, nps)
         m = rng.choice([1, 2, 3])
-        kind = rng.choice(["static", "translating", "rotating", "negquat", "mirrored"])
+        kind = rng.choice(["static", "translating", "rotating", "negquat", "mirrored", "wobble", "wobble"])
         pos = far_points(nps, m, lo=5, hi=8)
         if kind == "static":
             pos, ori = pos[:1], R.random(rng=nps)
@@ -106,6 +115,10 @@ def c04_sweep(ctx, n):
             ori = R.random(rng=nps)
         elif kind == "negquat":
             pos, ori = pos[:1], R.from_quat([0, 0, 0, -1.0])
+        elif kind == "wobble":  # an orientation path that stays within a fraction of a degree of its first entry
+            m = max(m, 2)
+            pos = far_points(nps, m, lo=5, hi=8) if rng.random() < 0.5 else np.repeat(far_points(nps, 1, lo=5, hi=8), m, axis=0)
+            ori = wobble(rng, nps, m)
         elif kind == "mirrored":  # orientations whose quaternions differ only in the signs of components
             a = nps.uniform(0.2, 1.2)
             ax = np.eye(3)[rng.randrange(3)]
@@ -301,10 +314,19 @@ def c06_sweep(ctx, n):
                     inside_pts.append(p + np.array([6.0 * j, 0, 0]))
             if rng.random() < 0.5:
                 srcs.insert(rng.randrange(len(srcs) + 1), make(rng.choice(CLASSES), nps, path=1))
+        if i % 7 == 3:
+            # a row of box meshes with equal face counts (same mesh re-appearing after a different one, concentric sizes)
+            from oracles.sources import lattice_points, mesh_row
+            _, srcs, _, dims_, poss_, oris_ = mesh_row(rng, nps, rotate=True)
+            inside_pts = [((o.apply(lattice_points(d, nps, 2)[1]) if o is not None else lattice_points(d, nps, 2)[1]) + q) for d, q, o in zip(dims_, poss_, oris_)]
         nk = rng.choice([1, 1, 2])
         shape = rng.choice([(3,), (2, 3), (1, 1, 3)])
         sens = [magpy.Sensor(position=far_points(nps, rng.choice([1, 2, 3]), lo=4, hi=8), pixel=nps.uniform(-0.3, 0.3, shape),
                              orientation=R.random(rng=nps)) for _ in range(nk)]
+        for se in sens:  # orientation paths as well: rotating freely, or staying within a fraction of a degree of the first entry
+            mm = len(se._position)
+            if mm > 1 and rng.random() < 0.6:
+                se.orientation = wobble(rng, nps, mm) if rng.random() < 0.6 else R.random(mm, rng=nps)
         if inside_pts:
             shape = (len(inside_pts), 3)
             sens = [magpy.Sensor(pixel=np.array(inside_pts) + nps.uniform(-0.01, 0.01, (len(inside_pts), 3)))]
